@@ -29,6 +29,7 @@ declare -A MAP=(
  ["shapes of its own call site"]="C06"
  ["concatenated into a network output"]="C08"
  ["meets the requested counts"]="C20"
+ ["leave the sampled coefficients in place"]="C18"
 )
 fail=0
 git -C /repo log --format='%h %s' bfd6014..HEAD | grep ' fix:' | while read h msg; do
